@@ -196,6 +196,8 @@ def run_property(pid: str, tier: str, only: list[str] | None = None, jobs: int |
     jobs = jobs or int(os.environ.get("VERIF_JOBS", "0") or 0) or min(16, os.cpu_count() or 4)
     ctx = mp.get_context("spawn")
     pending = list(obs)
+    total_w = sum(max(1, o.weight) for o in obs) or 1
+    ncpu = min(16, os.cpu_count() or 4)
     running: dict[str, tuple] = {}
     results: dict[str, dict] = {}
     while pending or running:
@@ -203,6 +205,9 @@ def run_property(pid: str, tier: str, only: list[str] | None = None, jobs: int |
             ob = pending.pop(0)
             parent, child = ctx.Pipe(duplex=False)
             proc = ctx.Process(target=_child, args=(modname, ob.oid, tier, child), daemon=False)
+            # worker processes an obligation may fork for its own exploration (E-SQL paths): its share
+            # of the cores by weight
+            os.environ["VF_WORKERS"] = str(max(1, min(ncpu, round(ncpu * max(1, ob.weight) / total_w))))
             proc.start()
             child.close()
             running[ob.oid] = (ob, proc, parent, time.time())
